@@ -135,6 +135,9 @@ def main(argv):
             known_hits.append((o, kf, rp))
         else:
             violations.append((o, oc, rp))
+    for o, kf, rp in known_hits:
+        outcomes[o.id]["status"] = "known-finding"
+        outcomes[o.id]["known_finding"] = kf.get("what", "")
     write_evidence(prop, a.tier, seed, obls, outcomes, notes, t0, evid_path, len(violations))
     for o, kf, rp in known_hits:
         print("KNOWN-FINDING: property=%s obligation=%s %s" % (prop, o.id, kf.get("what", "")), flush=True)
@@ -147,8 +150,8 @@ def main(argv):
         for o, why in undecided:
             log("UNDECIDED obligation %s: %s" % (o.id, why))
         return 2
-    n = len(obls)
-    log("%s %s: %d/%d obligations discharged in %.0fs" % (prop, a.tier, n, n, time.time() - t0))
+    n = len(obls) - len(known_hits)
+    log("%s %s: %d/%d obligations discharged in %.0fs%s" % (prop, a.tier, n, n, time.time() - t0, (" (+%d known finding)" % len(known_hits)) if known_hits else ""))
     return 0
 
 
@@ -255,7 +258,11 @@ def write_evidence(prop, tier, seed, obls, outcomes, notes, t0, path, nviol):
         if o.bound:
             row["bound"] = o.bound
         rows.append(row)
-    n = len(obls)
+    # an obligation that fails exactly as a recorded known finding is reported under `known_findings`; it is neither
+    # counted as discharged nor as an obligation this run was expected to discharge
+    kf_rows = [{"obligation": o.id, "what": outcomes[o.id].get("known_finding", ""), "failed_check": outcomes[o.id].get("failed_check", "")}
+               for o in obls if outcomes.get(o.id, {}).get("status") == "known-finding"]
+    n = len(obls) - len(kf_rows)
     disc = sum(1 for o in obls if outcomes.get(o.id, {}).get("status") == "discharged")
     by_label = {}
     for o in obls:
@@ -278,6 +285,7 @@ def write_evidence(prop, tier, seed, obls, outcomes, notes, t0, path, nviol):
         "trusted_base": registry.TRUSTED_BASE + spec.get("trusted", []),
         "functions_under_contract": fns,
         "obligation_table": rows,
+        "known_findings": kf_rows,
         "samples": samples,
         "solver_seconds": round(sum(float(outcomes.get(o.id, {}).get("seconds") or 0) for o in obls), 1),
         "repo_fingerprint": common.repo_fingerprint(),
